@@ -55,11 +55,32 @@ pub assume_specification[ RegexBuilder::build ](b: &RegexBuilder) -> (r: std::re
     ensures match r { Ok(re) => regex_of(rb_pattern(*b), rb_ci(*b)) == Some(re), Err(_) => regex_of(rb_pattern(*b), rb_ci(*b)) is None };
 
 
-// RegexSetBuilder: which patterns and flag reach the builder is not modelled (the set language is uninterpreted);
-// build() may fail
-pub assume_specification<I: IntoIterator<Item = S>, S: AsRef<str>>[ RegexSetBuilder::new::<I, S> ](patterns: I) -> (b: RegexSetBuilder);
-pub assume_specification<'a>[ RegexSetBuilder::case_insensitive ](b: &'a mut RegexSetBuilder, yes: bool) -> (r: &'a mut RegexSetBuilder);
-pub assume_specification[ RegexSetBuilder::build ](b: &RegexSetBuilder) -> (r: std::result::Result<RegexSet, regex::Error>);
+// RegexSetBuilder, modelled call by call (as in prelude/batchspecs.rs): `new(patterns)` records the pattern texts,
+// `case_insensitive(yes)` the flag, `build()` may fail; when it succeeds the set is ASSUMED to be one whose member i accepts
+// exactly what the regex built from pattern i with that flag accepts (rs_of).  RegexSet::new(patterns) is the builder with
+// its default flags (regex-1.x documentation).  The regex LANGUAGE stays uninterpreted.
+pub uninterp spec fn rsb_pats(b: RegexSetBuilder) -> Seq<Seq<char>>;
+pub uninterp spec fn rsb_ci(b: RegexSetBuilder) -> bool;
+pub uninterp spec fn pattern_texts<I>(p: I) -> Seq<Seq<char>>;
+pub open spec fn texts(ns: Seq<String>) -> Seq<Seq<char>> { Seq::new(ns.len(), |i: int| ns[i]@) }
+pub broadcast axiom fn axiom_pattern_texts_vec(v: Vec<String>)
+    ensures #[trigger] pattern_texts::<Vec<String>>(v) == texts(v@);
+pub open spec fn pat_lang(p: Seq<char>, ci: bool, x: Seq<char>) -> bool {
+    regex_of(p, ci) is Some && regex_is_match(&regex_of(p, ci)->Some_0, x)
+}
+pub open spec fn rs_of(s: &RegexSet, pats: Seq<Seq<char>>, ci: bool) -> bool {
+    &&& regexset_len(s) == pats.len()
+    &&& forall|x: Seq<char>| #[trigger] regexset_is_match(s, x) == (exists|i: int| 0 <= i < pats.len() && pat_lang(#[trigger] pats[i], ci, x))
+    &&& forall|x: Seq<char>, i: int| 0 <= i < pats.len() ==> #[trigger] regexset_member_match(s, i, x) == pat_lang(pats[i], ci, x)
+}
+pub assume_specification<I: IntoIterator<Item = S>, S: AsRef<str>>[ RegexSetBuilder::new::<I, S> ](patterns: I) -> (b: RegexSetBuilder)
+    ensures rsb_pats(b) == pattern_texts::<I>(patterns), rsb_ci(b) == false;
+pub assume_specification<'a>[ RegexSetBuilder::case_insensitive ](b: &'a mut RegexSetBuilder, yes: bool) -> (r: &'a mut RegexSetBuilder)
+    ensures rsb_pats(*final(b)) == rsb_pats(*old(b)), rsb_ci(*final(b)) == yes, *r == *final(b);
+pub assume_specification[ RegexSetBuilder::build ](b: &RegexSetBuilder) -> (r: std::result::Result<RegexSet, regex::Error>)
+    ensures r is Ok ==> rs_of(&r->Ok_0, rsb_pats(*b), rsb_ci(*b));
+pub assume_specification<I: IntoIterator<Item = S>, S: AsRef<str>>[ RegexSet::new::<I, S> ](patterns: I) -> (r: std::result::Result<RegexSet, regex::Error>)
+    ensures r is Ok ==> rs_of(&r->Ok_0, pattern_texts::<I>(patterns), false);
 
 // String::to_owned (the blanket ToOwned impl carries no vstd postcondition: expression hole)
 #[verifier::external_body]
